@@ -73,6 +73,25 @@ func c02Menu(thorough bool) []enga.ABlock {
 	return m
 }
 
+// c02Twice are blocks that present the same ill-founded vote twice in a row to the same
+// application instance: a rejection must not leave anything behind (not even outside the
+// stores) that lets the identical message through the second time. They are tried in every
+// state of the last level of the tree.
+func c02Twice() []enga.ABlock {
+	var out []enga.ABlock
+	for _, e := range []enga.Event{
+		{Kind: "tx:replay", Var: "unchanged"},
+		{Kind: "tx:replay", Var: "rewrite-context"},
+		{Kind: "tx:replay", Var: "rewrite-context+start"},
+		{Kind: "tx:replay", Var: "other-payload"},
+		{Kind: "tx:replay", Var: "other-action"},
+		{Kind: "tx:replay-consolidation", Var: "rewrite-context"},
+	} {
+		out = append(out, enga.ABlock{Events: []enga.Event{e, e}})
+	}
+	return out
+}
+
 func isVoted(m sdk.Msg) ([]byte, bool) {
 	switch t := m.(type) {
 	case *bitcointypes.MsgNewBlockHashes:
@@ -98,7 +117,7 @@ func runC02(r *mc.Run) {
 		r.SetBudget(170 * 1e9)
 	}
 	r.Bounds["depth_blocks"] = depth
-	r.Rule = "tree search over block histories of the real application (relayer proposer + 1 voter, and proposer alone; electing period 6 s): fresh voted messages (block hashes, new key, process withdrawal), voted messages that fail after the signature check, non-voted messages, elections, membership requests, two voted transactions in one block (chained and same-sequence), and every vote produced earlier in the history re-presented unchanged / with the claimed sequence, epoch and proposer rewritten / attached to another payload or action; oracle = reference sequence counter and randao chain; a failed transaction leaves relayer and bridge stores equal to the same block without that transaction"
+	r.Rule = "tree search over block histories of the real application (relayer proposer + 1 voter, and proposer alone; electing period 6 s): fresh voted messages (block hashes, new key, process withdrawal), voted messages that fail after the signature check, non-voted messages, elections, membership requests, two voted transactions in one block (chained and same-sequence), and every vote produced earlier in the history re-presented unchanged / with the claimed sequence, epoch and proposer rewritten / attached to another payload or action, and (at the last level) each ill-founded variant twice in a row to the same application instance; oracle = reference sequence counter and randao chain; a failed transaction leaves relayer and bridge stores equal to the same block without that transaction"
 	r.Assumptions = []string{"the sender's account sequence (bumped by the ante handler for any included tx) is not part of the proposal's effect", "BLS unforgeability"}
 	menu := c02Menu(r.Thorough())
 	for _, voters := range []int{1, 0} {
@@ -117,8 +136,14 @@ func c02Explore(r *mc.Run, voters, depth int, menu []enga.ABlock, only []enga.AB
 	}
 	defer root.Close()
 	stores := []string{"relayer", "bitcoin"}
+	twice := c02Twice()
 	t := &enga.Tree{Run: r, Depth: depth,
-		Menu: func(w *enga.World, path []enga.ABlock) []enga.ABlock { return menu },
+		Menu: func(w *enga.World, path []enga.ABlock) []enga.ABlock {
+			if len(path) == depth-1 {
+				return append(append([]enga.ABlock{}, menu...), twice...)
+			}
+			return menu
+		},
 		Pre: func(w *enga.World) any {
 			seq, rd, rel := relState(w)
 			p := &c02Pre{seq: seq, randao: rd, accepted: rel.ProposerAccepted, epoch: rel.Epoch, emptyDump: map[int64]string{}}
